@@ -89,9 +89,9 @@ class Ring:
     def poly(self, t):
         k = t.get_id()
         if k in self.memo:
-            return self.memo[k]
+            return self.memo[k][1]
         r = self._poly(t)
-        self.memo[k] = r
+        self.memo[k] = (t, r)      # keep `t` alive: z3 re-uses ast ids after garbage collection
         return r
 
     def _poly(self, t):
